@@ -76,7 +76,9 @@ def run(r: Run):
     # by the cut loop) and a 184 kDa polymer at the default and the maximal request
     streams.append(("brain", [(f, n) for f in FORMULAS for n in (0, 2, 5, 17)] +
                     [("Mg100", 100), ("Mg150", 120), ("Si400", 120), ("C6144H12288O6144", 0), ("C6144H12288O6144", 300),
-                     ("C2000H4000", 0)], CARRIERS))
+                     ("C2000H4000", 0),
+                     # compositions of monoisotopic elements only (a single variant; the variant bound is 0)
+                     ("Na1", 0), ("Cs2I1", 3), ("P1F6", 0), ("Au4", 2), ("Na3I2", 0)], CARRIERS))
     for gen, items, carriers in streams:
         mode = {"poisson": "poisson", "conv": "conv", "brain": "brain"}[gen]
         zs = list(range(-8, 9)) if thorough or gen == "poisson" else [-8, -3, -1, 0, 1, 2, 5]
